@@ -6,6 +6,7 @@ import (
 	"encoding/base64"
 	"encoding/json"
 	"fmt"
+	"sort"
 	"strings"
 	"unicode/utf8"
 )
@@ -35,7 +36,13 @@ type Map struct {
 const b64 = "ABCDEFGHIJKLMNOPQRSTUVWXYZabcdefghijklmnopqrstuvwxyz0123456789+/"
 
 // Parse decodes and validates a source map document.
-func Parse(data []byte) (*Map, error) {
+func Parse(data []byte) (*Map, error) { return parse(data, false) }
+
+// ParseUnsorted is Parse for maps written by other tools: the segments of a line may come in any order (they are
+// returned sorted by generated column, stable).
+func ParseUnsorted(data []byte) (*Map, error) { return parse(data, true) }
+
+func parse(data []byte, allowUnsorted bool) (*Map, error) {
 	var m Map
 	if err := json.Unmarshal(data, &m); err != nil {
 		return nil, fmt.Errorf("not JSON: %v", err)
@@ -107,7 +114,7 @@ func Parse(data []byte) (*Map, error) {
 		if genCol < 0 {
 			return nil, fmt.Errorf("negative generated column on line %d", genLine)
 		}
-		if genCol < prevCol {
+		if genCol < prevCol && !allowUnsorted {
 			return nil, fmt.Errorf("mappings not sorted by generated column on line %d (%d after %d)", genLine, genCol, prevCol)
 		}
 		prevCol = genCol
@@ -132,6 +139,12 @@ func Parse(data []byte) (*Map, error) {
 			seg.HasName, seg.Name = true, name
 		}
 		m.Segments = append(m.Segments, seg)
+	}
+	if allowUnsorted {
+		sort.SliceStable(m.Segments, func(i, j int) bool {
+			a, b := m.Segments[i], m.Segments[j]
+			return a.GenLine < b.GenLine || a.GenLine == b.GenLine && a.GenCol < b.GenCol
+		})
 	}
 	return &m, nil
 }
